@@ -184,8 +184,8 @@ def build_from(sc: dict):
             key = (c["src"], c["seid"], c["dst"], c["deid"], c["ts"], c["weak"], bool(c.get("async")))
             pair = (ATTRS[c["sattr"]], ATTRS[c["dattr"]])
             init = {ATTRS[c["sattr"]]: 900000 + ci} if c["init"] else {}
-            if (sc.get("merge_calls") and calls and calls[-1]["key"] == key and pair not in calls[-1]["pairs"]
-                    and not (set(init) & set(calls[-1]["init"]))):
+            # (one source attribute per call: initial_data is keyed by the source attribute and applies to every pair that uses it)
+            if (sc.get("merge_calls") and calls and calls[-1]["key"] == key and pair[0] not in {p[0] for p in calls[-1]["pairs"]}):
                 calls[-1]["pairs"].append(pair)
                 calls[-1]["init"].update(init)
             else:
